@@ -520,4 +520,6 @@ pub fn run(e: &Engine) {
         |c| serde_json::to_value(c).unwrap(),
         check_case,
     );
+    e.fuzz_corpus("c18_read");
+    e.fuzz_campaign("c18_read", 500000);
 }
